@@ -542,7 +542,7 @@ enum MOp {
     Gc,
 }
 const KEYS: [&str; 5] = ["", "a", "ab", "b", "é"];
-const VALS: [&str; 2] = ["x", "y"];
+const VALS: [&str; 3] = ["", "x", "y"];
 const GRACE_MS: u64 = 1000;
 const STEPS_MS: [u64; 3] = [GRACE_MS - 1, 1, GRACE_MS];
 
@@ -658,10 +658,12 @@ fn compare(ns: &NodeState, m: &Model) -> Option<String> {
 fn mop_alphabet(nkeys: u8) -> Vec<MOp> {
     let mut v = Vec::new();
     for k in 0..nkeys {
-        for val in 0..2u8 {
+        for val in 0..3u8 {
             v.push(MOp::Set(k, val));
         }
-        v.push(MOp::SetTtl(k, 0));
+        for val in 0..2u8 {
+            v.push(MOp::SetTtl(k, val));
+        }
         v.push(MOp::Delete(k));
         v.push(MOp::DeleteTtl(k));
     }
@@ -703,10 +705,10 @@ async fn run_seq(seq: &[MOp], r: &mut Report) {
 #[tokio::test(start_paused = true)]
 async fn verif_c06_model() {
     let exh_len = if tier_thorough() { 5 } else { 4 };
-    let nkeys: u8 = if tier_thorough() { 4 } else { 3 };
+    let nkeys: u8 = 3;
     let mut r = Report::new(
         "c06_model",
-        &format!("all operation sequences up to length {exh_len} over set(2 values)/set_with_ttl/delete/delete_after_ttl on the first {nkeys} keys of ['', 'a', 'ab', 'b', 'é'], clock steps grace-1ms / 1ms / grace, GC; plus seeded random sequences of length 40 over all 5 keys (thorough: 3000, quick: 300); after every op all reads are compared with a reference map: get, contains_key, key_values, num_key_values, iter_prefix for each of the 5 keys as prefix, entries incl. tombstones, max version, GC watermark"),
+        &format!("all operation sequences up to length {exh_len} over set(3 values incl. the empty string)/set_with_ttl(2 values incl. the empty string)/delete/delete_after_ttl on the first {nkeys} keys of ['', 'a', 'ab', 'b', 'é'], clock steps grace-1ms / 1ms / grace, GC; plus seeded random sequences of length 40 over all 5 keys (thorough: 3000, quick: 300); after every op all reads are compared with a reference map: get, contains_key, key_values, num_key_values, iter_prefix for each of the 5 keys as prefix, entries incl. tombstones, max version, GC watermark"),
         true,
     );
     let alpha = mop_alphabet(nkeys);
